@@ -158,6 +158,14 @@ func genValue(kind string, forJSON bool, noSep string) *rapid.Generator[any] {
 				rapid.Custom(func(t *rapid.T) string {
 					return string(rapid.SliceOfN(rapid.ByteRange(1, 255), 0, 10).Draw(t, "rawbytes"))
 				}),
+				// values made of the punctuation of the carriers themselves - JSON brackets, commas, quotes and comment
+				// openers, shell and printf syntax: a value is a value, whatever a lenient reader of the document around it
+				// would make of such bytes outside a string (regular expressions and format templates look like this) -
+				// round twenty-two
+				rapid.Custom(func(t *rapid.T) string {
+					pieces := rapid.SliceOfN(rapid.SampledFrom([]string{",", "}", "]", "{", "[", "\"", ":", " ", "\n", "\t", "//", "/*", "*/", "#", ",}", ", ]", ",\n}", "{3,}", "\\u002c", "\\", "${X}", "$(x)", "%s", "%", "a", "1", "null", "true", "'", "`", "\r\n", ";", "="}), 1, 7).Draw(t, "syntaxPieces")
+					return strings.Join(pieces, "")
+				}),
 			).Draw(t, "s")
 			for _, c := range noSep {
 				s = strings.ReplaceAll(s, string(c), "_")
